@@ -16,11 +16,16 @@
 // response or an error, never another call's response, including across
 // timeouts, cancellations and connection loss"):
 //
-//	per call     success  => payload == f(own id) byte for byte          (foreign-response / *-garbled)
-//	             RemoteError produced by our handler => carries own id    (foreign-error-response)
+//	per call     success  => payload == f(own id, asked length) byte for byte (foreign-response / *-garbled)
+//	             the returned slice is kept by the caller and must still be
+//	             f(own id) after further calls completed and at the end of
+//	             the case             (response-mutated-after-return / foreign-response)
+//	             RemoteError produced by our handler => exactly own id's text (foreign-error-response / own-error-response-garbled)
 //	             success  => the handler really ran for this id           (success-without-handler)
 //	             any error is allowed (deadlines are workload, not oracle)
-//	server side  every request body that reaches the handler is intact   (request-garbled / request-foreign)
+//	server side  every request body that reaches the handler is intact, and
+//	             still is when the handler returns, however long it was parked
+//	                                   (request-garbled / request-foreign / request-mutated-during-handler)
 //	quiescence   every issued call returned (Go returns once; watchdog => inconclusive)
 //	             pending-RPC gauge of every live connection returns to 0  (poll; watchdog => inconclusive)
 //	             after every connection actor has exited, the final
@@ -104,47 +109,58 @@ func c26Mix(x uint64) uint64 {
 	return x ^ (x >> 31)
 }
 
-// c26Pattern is a fixed pseudo-random megabyte; the padding of a message for
-// id is a window of it chosen by id, so building and checking padding are
-// single copy/compare operations (cheap under the race detector).
-const c26MaxPad = 300 << 10
+// Keyed content: byte i of the content for key k is byte i%8 of
+// c26Mix(k + i/8). It is generated and checked 8 bytes at a time into/out of
+// private memory. (A shared pattern buffer would be far more expensive: under
+// the race detector concurrent range reads of the same memory contend on its
+// shadow cells.)
+const c26MaxLen = 2<<20 + 64 // longest payload ever generated (largest frame limit + slack)
 
-var c26Pattern = func() []byte {
-	b := make([]byte, 1<<20+c26MaxPad)
-	x := uint64(0x2545f4914f6cdd1d)
-	for i := 0; i+8 <= len(b); i += 8 {
-		x ^= x << 13
-		x ^= x >> 7
-		x ^= x << 17
-		binary.LittleEndian.PutUint64(b[i:], x)
+func c26FillKeyed(dst []byte, key uint64) {
+	i := 0
+	for ; i+8 <= len(dst); i += 8 {
+		binary.LittleEndian.PutUint64(dst[i:], c26Mix(key+uint64(i>>3)))
 	}
-	return b
-}()
-
-func c26Pad(seed uint64, n int) []byte {
-	off := int(c26Mix(seed) % (1 << 20))
-	return c26Pattern[off : off+n]
+	if i < len(dst) {
+		var w [8]byte
+		binary.LittleEndian.PutUint64(w[:], c26Mix(key+uint64(i>>3)))
+		copy(dst[i:], w[:])
+	}
 }
 
-func c26Fill(dst []byte, seed uint64) { copy(dst, c26Pad(seed, len(dst))) }
+func c26IsKeyed(b []byte, key uint64) bool {
+	i := 0
+	for ; i+8 <= len(b); i += 8 {
+		if binary.LittleEndian.Uint64(b[i:]) != c26Mix(key+uint64(i>>3)) {
+			return false
+		}
+	}
+	if i < len(b) {
+		var w [8]byte
+		binary.LittleEndian.PutUint64(w[:], c26Mix(key+uint64(i>>3)))
+		return bytes.Equal(b[i:], w[:len(b)-i])
+	}
+	return true
+}
 
 type c26Req struct {
 	id      uint64
 	beh     uint8
 	delay   time.Duration
-	respPad uint32
+	respLen uint32 // total length of the success payload, or of the error text padding
 	lag     uint32
 }
 
-func c26BuildReq(q c26Req, reqPad int) []byte {
-	b := make([]byte, c26ReqHdr+reqPad)
+// c26BuildReq builds a request payload of exactly total bytes (>= c26ReqHdr).
+func c26BuildReq(q c26Req, total int) []byte {
+	b := make([]byte, total)
 	binary.BigEndian.PutUint64(b[0:], q.id)
 	b[8] = q.beh
 	binary.BigEndian.PutUint16(b[9:], uint16(q.delay/(10*time.Microsecond)))
-	binary.BigEndian.PutUint32(b[11:], q.respPad)
+	binary.BigEndian.PutUint32(b[11:], q.respLen)
 	binary.BigEndian.PutUint32(b[15:], q.lag)
-	binary.BigEndian.PutUint32(b[19:], uint32(reqPad))
-	c26Fill(b[c26ReqHdr:], q.id^c26K2)
+	binary.BigEndian.PutUint32(b[19:], uint32(total-c26ReqHdr))
+	c26FillKeyed(b[c26ReqHdr:], q.id^c26K2)
 	return b
 }
 
@@ -156,26 +172,75 @@ func c26ParseReq(p []byte) (c26Req, bool) {
 		id:      binary.BigEndian.Uint64(p[0:]),
 		beh:     p[8],
 		delay:   time.Duration(binary.BigEndian.Uint16(p[9:])) * 10 * time.Microsecond,
-		respPad: binary.BigEndian.Uint32(p[11:]),
+		respLen: binary.BigEndian.Uint32(p[11:]),
 		lag:     binary.BigEndian.Uint32(p[15:]),
 	}
 	pad := int(binary.BigEndian.Uint32(p[19:]))
-	if pad != len(p)-c26ReqHdr || q.beh >= c26bCount || q.respPad > c26MaxPad {
+	if pad != len(p)-c26ReqHdr || q.beh >= c26bCount || q.respLen > c26MaxLen || pad > c26MaxLen {
 		return q, false
 	}
-	if pad > c26MaxPad {
-		return q, false
-	}
-	return q, bytes.Equal(c26Pad(q.id^c26K2, pad), p[c26ReqHdr:])
+	return q, c26IsKeyed(p[c26ReqHdr:], q.id^c26K2)
 }
 
-// c26Resp is f(id): the only payload call `id` may successfully receive.
-func c26Resp(id uint64, pad uint32) []byte {
-	b := make([]byte, c26RespHdr+int(pad))
-	binary.BigEndian.PutUint64(b[0:], id^c26K1)
-	binary.BigEndian.PutUint64(b[8:], c26Mix(id))
-	c26Fill(b[c26RespHdr:], id^c26K1^c26K2)
+func c26RespHead(id uint64) (h [c26RespHdr]byte) {
+	binary.BigEndian.PutUint64(h[0:], id^c26K1)
+	binary.BigEndian.PutUint64(h[8:], c26Mix(id))
+	return
+}
+
+// c26Resp is f(id, n): the only payload call `id` (which asked for n bytes)
+// may successfully receive: the first n bytes of head(id) || keyed content.
+func c26Resp(id uint64, n int) []byte {
+	b := make([]byte, n)
+	h := c26RespHead(id)
+	copy(b, h[:])
+	if n > c26RespHdr {
+		c26FillKeyed(b[c26RespHdr:], id^c26K1^c26K2)
+	}
 	return b
+}
+
+// c26RespIs reports b == f(id, n) without allocating.
+func c26RespIs(id uint64, n int, b []byte) bool {
+	if len(b) != n {
+		return false
+	}
+	h := c26RespHead(id)
+	k := n
+	if k > c26RespHdr {
+		k = c26RespHdr
+	}
+	if !bytes.Equal(b[:k], h[:k]) {
+		return false
+	}
+	return n <= c26RespHdr || c26IsKeyed(b[c26RespHdr:], id^c26K1^c26K2)
+}
+
+// c26ErrMsg is the only handler error text call `id` may receive.
+func c26ErrMsg(id uint64, pad int) string {
+	head := fmt.Sprintf("%s%016x:", c26ErrPfx, id)
+	b := make([]byte, len(head)+(pad+7)&^7)
+	copy(b, head)
+	for i := len(head); i+8 <= len(b); i += 8 { // letters a..p
+		binary.LittleEndian.PutUint64(b[i:], 0x6161616161616161+(c26Mix(id^c26K1+uint64(i))&0x0f0f0f0f0f0f0f0f))
+	}
+	return string(b[:len(head)+pad])
+}
+
+func c26FirstDiff(a, b []byte) int {
+	n := len(a)
+	if len(b) < n {
+		n = len(b)
+	}
+	for i := 0; i < n; i++ {
+		if a[i] != b[i] {
+			return i
+		}
+	}
+	if len(a) != len(b) {
+		return n
+	}
+	return -1
 }
 
 // c26RespOwner recognises a well-formed f(x) header and returns x.
@@ -374,8 +439,10 @@ type c26Cfg struct {
 	Cooldown    string `json:"dial_cooldown"`
 	LinkFaults  bool   `json:"link_faults"`
 	Chaos       int    `json:"chaos_actions"`
+	FrameLimit  int    `json:"max_frame_body"`
 	Marathon    bool   `json:"marathon,omitempty"`
 	LagHeavy    bool   `json:"lag_heavy,omitempty"`
+	SizeHeavy   bool   `json:"size_heavy,omitempty"`
 	DialFailPct int    `json:"dial_fail_pct"`
 }
 
@@ -414,6 +481,10 @@ type c26Case struct {
 	wmu     sync.Mutex
 	waiters []c26Waiter
 	wmin    atomic.Int64
+
+	heldBytes atomic.Int64
+	hmu       sync.Mutex
+	finalHeld []c26Held
 
 	cmu      sync.Mutex
 	counters map[string]int
@@ -562,7 +633,26 @@ func (cs *c26Case) handle(ctx context.Context, p []byte) ([]byte, error) {
 		close(cs.started[idx])
 	}
 	cs.count("handler."+c26BehName[q.beh], 1)
-	herr := fmt.Errorf("%s%016x", c26ErrPfx, q.id)
+	if len(p) > 65536 {
+		cs.count("handler.request_over_64KiB", 1)
+	}
+	// The handler owns p until it returns (the service releases the slab only
+	// afterwards): the body must still be this call's body when we are done,
+	// however long we were parked. (Keeping p beyond return would be a handler
+	// bug, so it is not done.)
+	defer func() {
+		if q2, ok2 := c26ParseReq(p); !ok2 || q2 != q {
+			sig := "request-mutated-during-handler"
+			if ok2 {
+				sig = "request-became-foreign-during-handler"
+			}
+			cs.violate(sig, map[string]any{"id": fmt.Sprintf("%#x", q.id), "now_id": fmt.Sprintf("%#x", q2.id), "len": len(p), "plan": cs.planOf(idx)})
+		}
+	}()
+	var herr error
+	if q.beh == c26bErr || q.beh == c26bErrDelay || q.beh == c26bLateErr {
+		herr = errors.New(c26ErrMsg(q.id, int(q.respLen)))
+	}
 	beh := q.beh
 	if beh == c26bLag || beh == c26bNever {
 		if cs.parked.Add(1) > cs.parkCap {
@@ -575,10 +665,10 @@ func (cs *c26Case) handle(ctx context.Context, p []byte) ([]byte, error) {
 	}
 	switch beh {
 	case c26bEcho:
-		return c26Resp(q.id, q.respPad), nil
+		return c26Resp(q.id, int(q.respLen)), nil
 	case c26bEchoDelay:
 		time.Sleep(q.delay)
-		return c26Resp(q.id, q.respPad), nil
+		return c26Resp(q.id, int(q.respLen)), nil
 	case c26bErr:
 		return nil, herr
 	case c26bErrDelay:
@@ -595,7 +685,7 @@ func (cs *c26Case) handle(ctx context.Context, p []byte) ([]byte, error) {
 		if beh == c26bLateErr {
 			return nil, herr
 		}
-		return c26Resp(q.id, q.respPad), nil
+		return c26Resp(q.id, int(q.respLen)), nil
 	case c26bLag:
 		select {
 		case <-cs.waitProgress(int64(idx) + int64(q.lag)):
@@ -604,41 +694,160 @@ func (cs *c26Case) handle(ctx context.Context, p []byte) ([]byte, error) {
 			return nil, ctx.Err()
 		case <-cs.gate:
 		}
-		return c26Resp(q.id, q.respPad), nil
+		return c26Resp(q.id, int(q.respLen)), nil
 	default: // never
 		select {
 		case <-cs.gate:
 		case <-ctx.Done():
 			return nil, ctx.Err()
 		}
-		return c26Resp(q.id, q.respPad), nil
+		return c26Resp(q.id, int(q.respLen)), nil
 	}
 }
 
-func c26PadLen(rng *rand.Rand) int {
-	// large bodies are rare: every body above 64 KiB costs a 1 MiB slab in the
-	// transport, which dominates CPU under the race detector
-	switch x := rng.IntN(1000); {
-	case x < 870:
-		return rng.IntN(64)
-	case x < 975:
-		return rng.IntN(4000)
-	case x < 997:
-		return rng.IntN(60 << 10)
-	default:
-		return rng.IntN(c26MaxPad)
+// c26SizeClass draws a payload length. Classes sit on every slab boundary of
+// the transport's buffer pool (512, 4096, 65536, 1 MiB), on the frame limit,
+// and in between. A request body is the payload itself; a response body is one
+// status byte plus the payload, hence b-3..b+2 around each boundary b. Bodies
+// above 64 KiB cost a 1 MiB slab each, so they are kept to a few percent.
+func c26SizeClass(rng *rand.Rand, limit, min int, heavy, boostLarge bool) int {
+	n := 0
+	x := rng.IntN(1000)
+	if !heavy {
+		// race-detector unit: every byte of a large body costs ~50 ns per copy
+		// under the detector, so bodies above 64 KiB are rare and mostly just
+		// above the boundary; the size-heavy unit (no detector) does the rest
+		switch {
+		case x < 800:
+			n = min + rng.IntN(64)
+		case x < 830:
+			n = rng.IntN(3)
+		case x < 890:
+			n = []int{512, 4096}[rng.IntN(2)] - 3 + rng.IntN(6)
+		case x < 980:
+			n = rng.IntN(4000)
+		case x < 994:
+			n = rng.IntN(60 << 10)
+		case x < 998:
+			n = 65536 - 3 + rng.IntN(6)
+		case x < 999:
+			n = 100 << 10
+		default:
+			if rng.IntN(2) == 0 {
+				n = min + rng.IntN(64)
+			} else {
+				n = []int{512 << 10, 1<<20 - 2, limit - 2, limit - 1, limit, limit + 1}[rng.IntN(6)]
+			}
+		}
+		if n < min {
+			n = min
+		}
+		return n
 	}
+	if boostLarge && rng.IntN(100) < 10 {
+		x = 900 + rng.IntN(100) // a call that will probably succeed: more large answers
+	}
+	switch {
+	case x < 700:
+		n = min + rng.IntN(64)
+	case x < 730:
+		n = rng.IntN(3)
+	case x < 800:
+		n = []int{512, 4096}[rng.IntN(2)] - 3 + rng.IntN(6)
+	case x < 860:
+		n = rng.IntN(4000)
+	case x < 900:
+		n = rng.IntN(60 << 10)
+	case x < 930:
+		n = 65536 - 3 + rng.IntN(6)
+	case x < 965:
+		n = []int{100 << 10, 512 << 10, 65537 + rng.IntN(limit-65537)}[rng.IntN(3)]
+	case x < 985:
+		n = 1<<20 - 3 + rng.IntN(6)
+	default:
+		n = limit - 3 + rng.IntN(6)
+	}
+	if n < min {
+		n = min
+	}
+	return n
+}
+
+// c26Held is a result a caller keeps after Call returned, to be verified again later.
+type c26Held struct {
+	idx     int
+	id      uint64
+	n       int
+	payload []byte // the very slice Call returned (never copied)
+	msg     string // or the RemoteError text
+	isErr   bool
+	due     int64 // re-verify once the case's completed-call counter reaches this
+}
+
+const c26HeldCap = 64 << 20 // bytes of returned payloads kept per case
+
+func (cs *c26Case) verifyHeld(h *c26Held, phase string) {
+	cs.count("held.verified."+phase, 1)
+	if h.isErr {
+		if h.msg != c26ErrMsg(h.id, h.n) {
+			cs.violate("error-text-mutated-after-return", map[string]any{"own_id": fmt.Sprintf("%#x", h.id), "phase": phase, "len": len(h.msg)})
+		}
+		return
+	}
+	if c26RespIs(h.id, h.n, h.payload) {
+		return
+	}
+	w := map[string]any{"own_id": fmt.Sprintf("%#x", h.id), "own_plan": cs.planOf(h.idx), "phase": phase, "len": h.n,
+		"first_diff_offset": c26FirstDiff(h.payload, c26Resp(h.id, h.n)),
+		"note":              "payload was byte-equal to f(own id) when Call returned; re-verified later while the caller still held it"}
+	if owner, ok := c26RespOwner(h.payload); ok && owner != h.id {
+		w["now_id"] = fmt.Sprintf("%#x", owner)
+		w["now_plan"] = cs.planOf(int(uint32(owner)))
+		w["now_same_case"] = owner&^0xffffffff == cs.tag
+		cs.violate("foreign-response", w)
+		return
+	}
+	cs.violate("response-mutated-after-return", w)
 }
 
 func (cs *c26Case) caller(ci int, wg *sync.WaitGroup) {
 	defer wg.Done()
 	rng := cs.r.Rand(26, uint64(cs.idx), 1, uint64(ci))
+	var fresh, kept []c26Held // fresh: waiting for the mid-case re-verification
+	defer func() {
+		cs.hmu.Lock()
+		cs.finalHeld = append(append(cs.finalHeld, fresh...), kept...)
+		cs.hmu.Unlock()
+	}()
 	for {
 		idx := int(cs.next.Add(1) - 1)
 		if idx >= cs.cfg.Total {
 			return
 		}
-		cs.oneCall(idx, rng)
+		if h := cs.oneCall(idx, rng); h != nil {
+			h.due = cs.completed.Load() + int64(1+rng.IntN(1+rng.IntN(300)))
+			fresh = append(fresh, *h)
+			for cs.heldBytes.Add(0) > c26HeldCap && len(kept) > 0 { // bounded memory: drop own oldest
+				cs.verifyHeld(&kept[0], "evicted")
+				cs.heldBytes.Add(-int64(kept[0].n))
+				kept[0] = c26Held{}
+				kept = kept[1:]
+			}
+		}
+		now := cs.completed.Load()
+		w := fresh[:0]
+		for i := range fresh {
+			if now >= fresh[i].due {
+				cs.verifyHeld(&fresh[i], "midcase")
+				kept = append(kept, fresh[i])
+			} else {
+				w = append(w, fresh[i])
+			}
+		}
+		for i := len(w); i < len(fresh); i++ {
+			fresh[i] = c26Held{}
+		}
+		fresh = w
 	}
 }
 
@@ -698,16 +907,26 @@ func (cs *c26Case) pickPlan(idx int, rng *rand.Rand) (beh, pol int) {
 	return
 }
 
-func (cs *c26Case) oneCall(idx int, rng *rand.Rand) {
+func (cs *c26Case) oneCall(idx int, rng *rand.Rand) *c26Held {
 	r := cs.r
 	id := cs.tag | uint64(idx)
 	beh, pol := cs.pickPlan(idx, rng)
 	cs.plan[idx].Store(uint32(beh<<8|pol) + 1)
-	q := c26Req{id: id, beh: uint8(beh)}
-	reqPad := 0
+	q := c26Req{id: id, beh: uint8(beh), respLen: c26RespHdr}
+	reqLen := c26ReqHdr
+	limit := cs.cfg.FrameLimit
+	isErrBeh := beh == c26bErr || beh == c26bErrDelay || beh == c26bLateErr
 	if !cs.cfg.Marathon {
-		q.respPad = uint32(c26PadLen(rng))
-		reqPad = c26PadLen(rng)
+		q.respLen = uint32(c26SizeClass(rng, limit, 0, cs.cfg.SizeHeavy, beh <= c26bEchoDelay && (pol == c26pLong || pol == c26pBackground)))
+		if isErrBeh && rng.IntN(3) != 0 {
+			q.respLen = uint32(rng.IntN(40)) // most error texts are short
+		}
+		reqLen = c26SizeClass(rng, limit, c26ReqHdr, cs.cfg.SizeHeavy, false)
+		if (pol == c26pLong || pol == c26pBackground) && int(q.respLen)+64 > limit {
+			// the answer cannot fit a frame: the server drops it, nobody will
+			// ever wake this caller, so it must give up by itself
+			pol = c26pShort
+		}
 		q.delay = time.Duration(rng.IntN(300)) * 10 * time.Microsecond
 		if rng.IntN(10) == 0 {
 			q.delay = time.Duration(rng.IntN(1500)) * 10 * time.Microsecond
@@ -727,8 +946,12 @@ func (cs *c26Case) oneCall(idx int, rng *rand.Rand) {
 	} else {
 		q.lag = uint32(65_536 - 72 + rng.IntN(112))
 	}
-	payload := c26BuildReq(q, reqPad)
-	want := c26Resp(id, q.respPad)
+	cs.plan[idx].Store(uint32(beh<<8|pol) + 1)
+	payload := c26BuildReq(q, reqLen)
+	wantLen := int(q.respLen)
+	if reqLen > 65536 {
+		cs.count("size.request_over_64KiB", 1)
+	}
 
 	var ctx context.Context
 	cancel := func() {}
@@ -786,23 +1009,34 @@ func (cs *c26Case) oneCall(idx int, rng *rand.Rand) {
 
 	wit := func() map[string]any {
 		return map[string]any{"own_id": fmt.Sprintf("%#x", id), "own_plan": cs.planOf(idx), "inflight_at_call": infl,
-			"err": fmt.Sprint(err), "resp_len": len(resp), "want_len": len(want)}
+			"err": fmt.Sprint(err), "req_len": reqLen, "resp_len": len(resp), "want_len": wantLen}
+	}
+	hold := func(h *c26Held) *c26Held {
+		if cs.cfg.Marathon && idx%8 != 0 {
+			return nil
+		}
+		cs.heldBytes.Add(int64(h.n))
+		return h
 	}
 	if err == nil {
-		if bytes.Equal(resp, want) {
+		if c26RespIs(id, wantLen, resp) {
 			cs.count("call.ok", 1)
+			if wantLen+1 > 65536 {
+				cs.count("size.ok_response_body_over_64KiB", 1)
+			}
 			if cs.handled[idx].Load() == 0 {
 				cs.violate("success-without-handler", wit())
 			}
-			return
+			return hold(&c26Held{idx: idx, id: id, n: wantLen, payload: resp})
 		}
 		w := wit()
+		w["first_diff_offset"] = c26FirstDiff(resp, c26Resp(id, wantLen))
 		if owner, ok := c26RespOwner(resp); ok && owner != id {
 			oidx := int(uint32(owner))
 			w["got_id"] = fmt.Sprintf("%#x", owner)
 			w["got_same_case"] = owner&^0xffffffff == cs.tag
 			w["got_plan"] = cs.planOf(oidx)
-			w["got_is_exact_f_of_other"] = bytes.Equal(resp, c26Resp(owner, uint32(len(resp)-c26RespHdr)))
+			w["got_is_exact_f_of_other"] = c26RespIs(owner, len(resp), resp)
 			cs.violate("foreign-response", w)
 		} else if ok {
 			cs.violate("own-response-garbled", w)
@@ -814,7 +1048,7 @@ func (cs *c26Case) oneCall(idx int, rng *rand.Rand) {
 			w["head"] = fmt.Sprintf("% x", head)
 			cs.violate("response-garbled", w)
 		}
-		return
+		return nil
 	}
 	// any error is an allowed outcome; classify for evidence
 	var re transport.RemoteError
@@ -833,12 +1067,23 @@ func (cs *c26Case) oneCall(idx int, rng *rand.Rand) {
 					w["got_plan"] = cs.planOf(int(uint32(got)))
 				}
 				cs.violate("foreign-error-response", w)
-				return
+				return nil
+			}
+			if !isErrBeh || re.Message != c26ErrMsg(id, wantLen) {
+				w := wit()
+				w["msg_len"] = len(re.Message)
+				w["first_diff_offset"] = c26FirstDiff([]byte(re.Message), []byte(c26ErrMsg(id, wantLen)))
+				cs.violate("own-error-response-garbled", w)
+				return nil
 			}
 			if cs.handled[idx].Load() == 0 {
 				cs.violate("success-without-handler", wit())
 			}
 			cs.count("call.err.remote_handler_error_own", 1)
+			if len(re.Message) > 65536 {
+				cs.count("size.error_text_over_64KiB", 1)
+			}
+			return hold(&c26Held{idx: idx, id: id, n: wantLen, msg: re.Message, isErr: true})
 		} else {
 			cs.count("call.err.remote_other", 1)
 		}
@@ -857,9 +1102,15 @@ func (cs *c26Case) oneCall(idx int, rng *rand.Rand) {
 		cs.count("call.err.dial", 1)
 	case errors.Is(err, transport.ErrQueueFull):
 		cs.count("call.err.queue_full", 1)
+	case errors.Is(err, transport.ErrMsgTooLarge):
+		cs.count("call.err.too_large", 1)
+		if reqLen <= limit {
+			cs.count("call.err.too_large_but_within_limit", 1) // error is allowed; recorded
+		}
 	default:
 		cs.count("call.err.link", 1)
 	}
+	return nil
 }
 
 func (cs *c26Case) chaos(stop <-chan struct{}, doneCh chan<- struct{}) {
@@ -975,10 +1226,10 @@ func c26Bucket(n int) string {
 	}
 }
 
-func c26GenCfg(rng *rand.Rand, marathon bool) c26Cfg {
+func c26GenCfg(rng *rand.Rand, marathon, sizeHeavy bool) c26Cfg {
 	if marathon {
 		return c26Cfg{Callers: 48, Total: 72_000, Pool: 1, Concurrency: 64, QueueSize: 1024, SvcTimeout: "0s",
-			BatchFrames: 64, BatchBytes: 1 << 20, QueueItems: 4096, BatchWait: "0s", Cooldown: "0s", Marathon: true}
+			BatchFrames: 64, BatchBytes: 1 << 20, QueueItems: 4096, BatchWait: "0s", Cooldown: "0s", Marathon: true, FrameLimit: 1 << 20}
 	}
 	cfg := c26Cfg{
 		Callers:     2 + rng.IntN(63),
@@ -994,6 +1245,7 @@ func c26GenCfg(rng *rand.Rand, marathon bool) c26Cfg {
 		LinkFaults:  rng.IntN(4) != 0,
 		Chaos:       rng.IntN(12),
 		DialFailPct: []int{0, 0, 3, 10}[rng.IntN(4)],
+		FrameLimit:  []int{1 << 20, 1 << 20, 2 << 20}[rng.IntN(3)],
 	}
 	if rng.IntN(5) != 0 && cfg.Callers < 12 {
 		cfg.Callers += 10
@@ -1013,6 +1265,7 @@ func c26GenCfg(rng *rand.Rand, marathon bool) c26Cfg {
 		cfg.QueueItems = 4096
 		cfg.Total = 1200 + rng.IntN(800)
 	}
+	cfg.SizeHeavy = sizeHeavy
 	return cfg
 }
 
@@ -1048,7 +1301,7 @@ func c26RunCase(r *verifkit.Run, ci int, cfg c26Cfg) (ok, nontrivial bool) {
 	cs.plan = make([]atomic.Uint32, cfg.Total)
 
 	slim := transport.DefaultLimits()
-	slim.MaxFrameBodyBytes = 1 << 20
+	slim.MaxFrameBodyBytes = cfg.FrameLimit
 	slim.MaxBatchBytes = cfg.BatchBytes
 	slim.MaxBatchFrames = cfg.BatchFrames
 	clim := slim
@@ -1141,6 +1394,22 @@ func c26RunCase(r *verifkit.Run, ci int, cfg c26Cfg) (ok, nontrivial bool) {
 		}
 	}
 
+	// every payload the callers still hold must still be f(own id), now that
+	// all traffic of the case (and every buffer reuse it caused) is over
+	if callersBack {
+		cs.hmu.Lock()
+		final := cs.finalHeld
+		cs.finalHeld = nil
+		cs.hmu.Unlock()
+		var bytesHeld int64
+		for i := range final {
+			cs.verifyHeld(&final[i], "end-of-case")
+			bytesHeld += int64(final[i].n)
+		}
+		r.Max("held.max_bytes_at_case_end", int(bytesHeld))
+		r.Count("held.results_at_case_end", len(final))
+	}
+
 	// evidence + non-triviality
 	// (a handler that was still queued inside the stopped service may run a
 	// little later; it only touches atomics and the locked counter map)
@@ -1181,10 +1450,20 @@ func c26RunCase(r *verifkit.Run, ci int, cfg c26Cfg) (ok, nontrivial bool) {
 	return ok, nontrivial
 }
 
-func TestVerifC26RPC(t *testing.T) {
-	r := verifkit.Start(t, "C26", "rpc")
+// TestVerifC26RPC runs under the race detector with mostly small payloads.
+func TestVerifC26RPC(t *testing.T) { c26RunUnit(t, "rpc", false) }
+
+// TestVerifC26RPCSize is the same monitor built without the race detector
+// (large bodies are ~100x cheaper there) with payload sizes concentrated on
+// the buffer-pool slab boundaries, the frame limit and multi-hundred-KiB
+// bodies, so that buffer ownership bugs (a returned payload aliasing pooled
+// memory, a body truncated or padded at a boundary) become visible.
+func TestVerifC26RPCSize(t *testing.T) { c26RunUnit(t, "rpcsize", true) }
+
+func c26RunUnit(t *testing.T, unit string, sizeHeavy bool) {
+	r := verifkit.Start(t, "C26", unit)
 	defer r.Finish()
-	r.SetRule("one case = fresh transport.Server on loopback TCP + transport.Client (pool 1..4) over fault conns; 2..64 callers issue 400..1800 Calls whose payload carries a run-unique id and the handler behaviour (echo f(id) now/after delay, id-carrying error, answer only after the caller gave up, answer after N further calls completed, never); callers use long/none/short deadlines, pre-cancelled ctx, timer cancel, cancel-when-handler-started; chaos at PRNG progress points: RST, half-close read/write, mid-frame stall (then continue or reset) in either direction, ClosePeer (also concurrent); per-op PRNG delays/fragmentation/resets inside the conn; config (service concurrency/queue/timeout, batch limits, queue limits, dial failures/cooldown) from the case PRNG. Thorough tier: four marathon cases (72k calls on one connection) separate a given-up call from its late answer by >65k request ids. Non-trivial case = >=1 call gave up by timeout/cancel AND >=1 link loss (reset/half-close) happened while >=8 calls were in flight AND >=1 call succeeded; distinct by abstract shape (sizes, fault/outcome buckets).")
+	r.SetRule("one case = fresh transport.Server on loopback TCP + transport.Client (pool 1..4) over fault conns; 2..64 callers issue 400..1800 Calls whose payload carries a run-unique id and the handler behaviour; request, response and error-text lengths are drawn from classes on every buffer-pool slab boundary (512, 4096, 65536, 1 MiB, each -3..+2), 0/1/2, 100 KiB, 512 KiB and the frame limit (1 or 2 MiB, -3..+2, over-limit included), content keyed by the id over the whole length; callers keep every returned payload (<= 40 MiB per case) and re-verify it after 1..300 further calls completed and again after the case has shut down (echo f(id) now/after delay, id-carrying error, answer only after the caller gave up, answer after N further calls completed, never); callers use long/none/short deadlines, pre-cancelled ctx, timer cancel, cancel-when-handler-started; chaos at PRNG progress points: RST, half-close read/write, mid-frame stall (then continue or reset) in either direction, ClosePeer (also concurrent); per-op PRNG delays/fragmentation/resets inside the conn; config (service concurrency/queue/timeout, batch limits, queue limits, dial failures/cooldown) from the case PRNG. Thorough tier: four marathon cases (72k calls on one connection) separate a given-up call from its late answer by >65k request ids. Non-trivial case = >=1 call gave up by timeout/cancel AND >=1 link loss (reset/half-close) happened while >=8 calls were in flight AND >=1 call succeeded; distinct by abstract shape (sizes, fault/outcome buckets).")
 	r.Assume("loopback TCP delivers bytes unmodified; the fault conn only delays, fragments, truncates-then-resets, never alters bytes")
 	r.Assume("a success payload equal to f(id) can only originate from the handler invocation for id (f is injective, 128-bit tagged)")
 
@@ -1193,17 +1472,23 @@ func TestVerifC26RPC(t *testing.T) {
 	if runtime.GOMAXPROCS(0) > 8 {
 		defer runtime.GOMAXPROCS(runtime.GOMAXPROCS(8))
 	}
-	nCases := r.N(30, 300)
+	nCases := r.N(24, 300)
 	marathonEvery := 80 // thorough tier only: marathon cases 40, 120, 200...
+	stream := uint64(0)
+	if sizeHeavy {
+		nCases = r.N(40, 400)
+		marathonEvery = 1 << 30
+		stream = 77
+	}
 	nontrivialFloor := nCases / 3
 	ran, nNontrivial, aborted := 0, 0, false
 	for ci := 0; ci < nCases; ci++ {
 		if r.Skip(ci) {
 			continue
 		}
-		rng := r.Rand(26, uint64(ci), 0)
+		rng := r.Rand(26, uint64(ci), stream)
 		marathon := r.Thorough() && ci%marathonEvery == marathonEvery/2
-		cfg := c26GenCfg(rng, marathon)
+		cfg := c26GenCfg(rng, marathon, sizeHeavy)
 		r.BeginCase(ci, fmt.Sprintf("%+v", cfg))
 		t0 := time.Now()
 		ok, nt := c26RunCase(r, ci, cfg)
